@@ -134,6 +134,26 @@ func (op *pipelineOp) exec(fm *Frame) Exception {
 			// os.Pipe sets O_CLOEXEC, which is what we want.
 			reader, writer, e := os.Pipe()
 			if e != nil {
+				// The forms before this one are already running, and the
+				// forms from this one on will never be started. Release the
+				// pipe this form would have read from (its writer would
+				// otherwise block forever and its reader would never be
+				// closed), and account for the forms that are not started.
+				if inputIsPipe {
+					*input.sendError = errs.ReaderGone{}
+					close(input.sendStop)
+					input.readerGone.Store(true)
+					input.File.Close()
+				}
+				wg.Add(i - nforms)
+				if op.bg {
+					go func() {
+						wg.Wait()
+						fm.Evaler.addNumBgJobs(-1)
+					}()
+				} else {
+					wg.Wait()
+				}
 				return fm.errorpf(op, "failed to create pipe: %s", e)
 			}
 			ch := make(chan any, pipelineChanBufferSize)
